@@ -385,7 +385,7 @@ def v_pow(a, b, ctx=None):
                 for _ in range(b2 - 1):
                     r = v_mul(r, a)
                 if b2 % 2 == 0 and ctx is not None and isinstance(r, Sym) and not isinstance(a, SymC):
-                    if _term_size(r.z, 400) >= 400:
+                    if _term_size(r.z, 60) >= 60:
                         # a large polynomial: name it. The bound is always available, the definition only in the later
                         # solver stages (proving with the abstraction alone is sound: fewer hypotheses)
                         v = ctx.fresh("sq", "real")
